@@ -1,11 +1,106 @@
 From Coq Require Import ZArith List String Bool.
 Import ListNotations.
-From TD Require Import Lib.Sexp Model.C19_Vmap.
+From TD Require Import Lib.Sexp Model.C19_Vmap Model.C19_Content Model.C19_Plumb Model.C19_Memo.
 Open Scope string_scope.
 
-(* (vmap-id shape in_dim out_dim stackdim?) -> batch size of vmap(identity) result as the library's bookkeeping computes it *)
+(* ---------------- decoders ---------------- *)
+Fixpoint dec_tree {A} (lf : sexp -> option A) (s : sexp) {struct s} : option (ptree A) :=
+  match s with
+  | SL (SA "tup" :: l) =>
+      option_map PTup ((fix go (l : list sexp) : option (list (ptree A)) :=
+                          match l with
+                          | [] => Some []
+                          | x :: r => match dec_tree lf x, go r with Some a, Some b => Some (a :: b) | _, _ => None end
+                          end) l)
+  | SL (SA "lst" :: l) =>
+      option_map PLst ((fix go (l : list sexp) : option (list (ptree A)) :=
+                          match l with
+                          | [] => Some []
+                          | x :: r => match dec_tree lf x, go r with Some a, Some b => Some (a :: b) | _, _ => None end
+                          end) l)
+  | _ => option_map PLeaf (lf s)
+  end.
+
+Definition dec_aleaf (s : sexp) : option aleaf :=
+  match s with
+  | SL [SA "td"; b] => option_map ATd (dec_list dec_nat b)
+  | SL [SA "ten"; b] => option_map ATen (dec_list dec_nat b)
+  | SA "obj" => Some AObj
+  | _ => None
+  end.
+Definition dec_dleaf (s : sexp) : option dleaf :=
+  match s with
+  | SZ z => Some (LInt z)
+  | SA "none" => Some LNone
+  | SA "bad" => Some LBad
+  | _ => None
+  end.
+Definition dec_oleaf (s : sexp) : option oleaf :=
+  match s with
+  | SL [SA "td"; b; fs] =>
+      match dec_list dec_nat b, dec_list (dec_list dec_nat) fs with Some b, Some fs => Some (OTd b fs) | _, _ => None end
+  | SL [SA "ten"; b; bt] =>
+      match dec_list dec_nat b, dec_bool bt with Some b, Some bt => Some (OTen b bt) | _, _ => None end
+  | SA "obj" => Some OObj
+  | _ => None
+  end.
+(* a name: -1 = None, otherwise an id *)
+Definition dec_name (s : sexp) : option (option nat) :=
+  match s with SZ z => Some (if (z <? 0)%Z then None else Some (Z.to_nat z)) | _ => None end.
+Definition dec_hop (s : sexp) : option hop :=
+  match s with
+  | SA "self" => Some HSelf
+  | SA "dense" => Some HDense
+  | SA "rebuild" => Some HRebuild
+  | SL [SA "nested"; e] => option_map HNested (dec_list dec_nat e)
+  | _ => None
+  end.
+Definition dec_mop (s : sexp) : option mop :=
+  match s with
+  | SL [SA "vmap"; SZ d; l] => option_map (MVmap d) (dec_nat l)
+  | SL [SA "write"; k; SZ z] => option_map (fun k => MWrite k z) (dec_nat k)
+  | SL [SA "rebind"; k; id; SZ z] =>
+      match dec_nat k, dec_nat id with Some k, Some id => Some (MRebind k id z) | _, _ => None end
+  | SL [SA "pass"; k; id; SZ z] =>
+      match dec_nat k, dec_nat id with Some k, Some id => Some (MPass k id z) | _, _ => None end
+  | SA "unlock" => Some MUnlock
+  | SA "lock" => Some MLock
+  | _ => None
+  end.
+
+(* ---------------- encoders ---------------- *)
+Definition enc_name (n : option nat) : sexp := match n with None => SZ (-1) | Some k => enc_nat k end.
+Definition enc_names (n : names) : sexp := enc_opt (enc_list enc_name) n.
+Definition enc_err (e : err) : sexp :=
+  SA (match e with IndexErr => "IndexError" | RuntimeErr => "RuntimeError" | TypeErr => "TypeError" | ValueErr => "ValueError" end).
+Definition enc_reject (r : reject) : sexp :=
+  SA (match r with
+      | RTop => "top" | RNoInputs => "no-inputs" | RStructure => "structure" | RBadDim => "bad-dim"
+      | RNonTensor => "non-tensor" | RRange => "range" | RNoBatched => "no-batched" | RInconsistent => "inconsistent"
+      end).
+Definition enc_binp (b : binp) : sexp :=
+  match b with
+  | BSame _ => SA "same"
+  | BCopy b => SL [SA "copy"; enc_list enc_nat b]
+  | BTd b => SL [SA "btd"; enc_list enc_nat b]
+  | BTen s => SL [SA "bten"; enc_list enc_nat s]
+  end.
+Definition enc_uerr (e : uerr) : sexp :=
+  SA (match e with
+      | UCheck => "check" | UIncompatible => "incompatible" | UValue => "value" | UType => "type" | UIndex => "index"
+      | URuntime => "runtime"
+      end).
+Definition enc_ores (r : ores) : sexp :=
+  match r with
+  | RTd b => SL [SA "td"; enc_list enc_nat b]
+  | RTen s => SL [SA "ten"; enc_list enc_nat s]
+  | RObj => SA "obj"
+  end.
+Definition enc_seen (l : list (nat * Z)) : sexp := enc_list (enc_pair enc_nat enc_Z) l.
+
 Definition dispatch (cmd : string) (args : list sexp) : option sexp :=
   match cmd, args with
+  (* (vmap-id shape in_dim out_dim stackdim?) -> batch size of vmap(identity) result as the library's bookkeeping computes it *)
   | "vmap-id", [sh; SZ i; SZ o; sdo] =>
       match dec_list dec_nat sh, dec_opt dec_nat sdo with
       | Some sh, Some sdo =>
@@ -22,6 +117,71 @@ Definition dispatch (cmd : string) (args : list sexp) : option sexp :=
               end
           end
       | _, _ => None
+      end
+  (* (vmap-src bs names ((key feat) ..) in_dim out_dim ((key (I ..)) ..)): vmap(identity) at the element level; for every
+     queried element of the result, the address (key :: multi-index) of the element of the ORIGINAL tensordict it holds *)
+  | "vmap-src", [b; nm; sch; SZ i; SZ o; qs] =>
+      match dec_list dec_nat b, dec_opt (dec_list dec_name) nm, dec_list (dec_pair dec_nat (dec_list dec_nat)) sch,
+            dec_list (dec_pair dec_nat (dec_list (dec_list dec_nat))) qs with
+      | Some b, Some nm, Some sch, Some qs =>
+          match process_in_dim (List.length b) i with
+          | None => Some (SA "reject")
+          | Some d =>
+              match vmap1 (fun s => s) d o (addr_td b nm sch) with
+              | Raise e => Some (SL [SA "raise"; enc_err e])
+              | Ok R =>
+                  Some (SL [SA "ok"; enc_list enc_nat (bs R); enc_names (nms R);
+                            enc_list (enc_pair enc_nat (enc_list enc_nat)) (schema R);
+                            enc_list (fun q => SL [enc_nat (fst q); enc_list (fun I => enc_list enc_nat (val R (fst q) I)) (snd q)]) qs])
+              end
+          end
+      | _, _, _, _ => None
+      end
+  (* (plumb in_dims (arg ..) out_dims): vmap_impl up to the call of the function *)
+  | "plumb", [ind; SL al; outd] =>
+      match dec_tree dec_dleaf ind, dec_list_aux (dec_tree dec_aleaf) al, dec_tree dec_dleaf outd with
+      | Some ind, Some al, Some outd =>
+          if negb (check_out_dims outd) then Some (SL [SA "err"; SA "check"])
+          else match process ind al with
+               | PRej r => Some (SL [SA "rej"; enc_reject r])
+               | POk B dims flat =>
+                   Some (SL [SA "ok"; enc_nat B; enc_list (enc_opt enc_nat) dims; enc_list enc_binp (create flat dims)])
+               end
+      | _, _, _ => None
+      end
+  (* (unwrap B out_dims outs): _unwrap_batched on what the function returned *)
+  | "unwrap", [B; outd; outs] =>
+      match dec_nat B, dec_tree dec_dleaf outd, dec_tree dec_oleaf outs with
+      | Some B, Some outd, Some outs =>
+          match unwrap B outd outs with
+          | inl e => Some (SL [SA "err"; enc_uerr e])
+          | inr rs => Some (SL [SA "ok"; enc_list enc_ores rs])
+          end
+      | _, _, _ => None
+      end
+  (* (memo fix_rebind memo_none ((key id) ..) ((id content) ..) locked (op ..)) -> per vmap call (seen, per-sample loop sees); cache keys at the end *)
+  | "memo", [fx; mc; lv; st; lk; SL ops] =>
+      match dec_bool fx, dec_bool mc, dec_list (dec_pair dec_nat dec_nat) lv, dec_list (dec_pair dec_nat dec_Z) st, dec_bool lk,
+            dec_list_aux dec_mop ops with
+      | Some fx, Some mc, Some lv, Some st, Some lk, Some ops =>
+          let c := {| fix_rebind := fx; memo_none := mc |} in
+          let n0 := {| leaves := lv; store := st; locked := lk; vcache := []; ncopy := None |} in
+          let nf := fold_left (fun n op => fst (mstep c n op)) ops n0 in
+          Some (SL [enc_list (fun p => SL [enc_seen (fst p); enc_seen (snd p)]) (mrun c n0 ops);
+                    enc_list (fun kv => SL [enc_Z (fst (fst kv)); enc_nat (snd (fst kv))]) (vcache nf)])
+      | _, _, _, _, _, _ => None
+      end
+  (* (lazy-op shape stack_dim in_dim out_dim op) -> batch size of vmap(op-class) over a lazy stack *)
+  | "lazy-op", [sh; s; SZ i; o; op] =>
+      match dec_list dec_nat sh, dec_nat s, dec_nat o, dec_hop op with
+      | Some sh, Some s, Some o, Some op =>
+          match process_in_dim (List.length sh) i with
+          | None => Some (SA "reject")
+          | Some i' =>
+              let L := {| mbs := remove_nth sh s; nmem := nth s sh 0; sd := s; hidden := false |} in
+              Some (SL [SA "ok"; enc_list enc_nat (hres_remove (lazy_apply op (lazy_add L i')) (nth i' sh 0) o)])
+          end
+      | _, _, _, _ => None
       end
   | _, _ => None
   end.
